@@ -156,6 +156,16 @@ Definition pre_keywirewithprefix (w : bytes) (qtype qclass : N) (cd : bool) (p :
       end
   end.
 
+(* the literals of WireNameEqualsPresentation's label walk; since the walk is translated from the Go AST
+   (loopfunc go_WireNameEqualsPresentation_loop1_run, `emit` as a pure callback) these are tied by
+   Proofs_Gen.gen_WireNameEqualsPresentation_walk instead of source-text pins *)
+Definition wep_backslash : N := 92.
+Definition wep_digit0 : N := 48.
+Definition wep_print_lo : N := 32.
+Definition wep_print_hi : N := 126.
+Definition wep_len_mask : N := 192.
+Definition wep_dot : N := 46.
+
 (* WireNameEqualsPresentation: emit compares the next byte of [name] with c
    under the fold and advances; None = "return false" *)
 Definition wep_emit (c : N) (s : bytes) : option bytes :=
